@@ -214,6 +214,14 @@ def make_glue(name):
         if not isinstance(out, str):
             out = str(out)
         if br:
+            # the <br /> tags the format adds itself: one per line end of the value (a line end may also arrive url-encoded when an
+            # unquote stage runs first) - never one that the untrusted text spells out or smuggles in encoded form
+            nbr = 0
+            for ch in s:
+                if ch == '\n':
+                    nbr += 1
+            if out.count('<br />') > nbr + s.lower().count('%0a'):
+                return False
             out = strip_br(out)
         if '<' in out:
             return False
@@ -258,7 +266,7 @@ for _m in BR_THEN_UNQUOTE:
 # '%'-formatting a TaintedString under CrossHair raises an internal SystemError (the symbolic wrapper is copied through
 # __reduce__, which TaintedString forbids): those templates are decided over a stated pool of tainted values, untraced
 POOL_GLUE = {'cfmt_pre', 'cfmt_10s', 'cfmt_s_unq', 'epfs_r', 'epfs_10s', 'epfs_dot1s', 'epfs_dot1s_unq', 'cfmt_s'}
-TPOOL = ['<', 'a<b', '<%3C', ' <', '=<', '<\n', '%s<', '<<<', '%3C<', '<script>', '\x00<', "'<\"", '<b>%3Cscript%3E', '<%253C', '12<345', '<+%2B']
+TPOOL = ['<', 'a<b', '<%3C', ' <', '=<', '<\n', '%s<', '<<<', '%3C<', '<script>', '\x00<', "'<\"", '<b>%3Cscript%3E', '<%253C', '12<345', '<+%2B', '%3Cbr /%3E<', '<br />', 'a\n%3Cbr%20/%3E<', '<&\n"']
 
 
 def make_glue_pool(name):
@@ -304,6 +312,8 @@ ASSUMES = ["only values containing '<' are wrapped as TaintedString (publisher c
 
 
 def explain(obname, args):
+    if obname == 'combos':
+        return LASTC.get('info', '')
     if obname.startswith('glue_'):
         n = obname[5:]
         s = args.get('s')
@@ -314,3 +324,131 @@ def explain(obname, args):
         x = '<' + w.replace('%', '%25')
         return 'marked content %r; whole render: %s with x=TaintedString(%r) -> %r' % (w, src, x, HTML(src)(x=TaintedString(x)))
     return ''
+
+
+# ---------------------------------------------------------------- wave 3
+from crosshair.tracers import NoTracing      # noqa: E402
+
+STR_METHODS = sorted(n for n in dir(str) if not n.startswith('_'))
+
+
+def leak_free(out, s, br):
+    """br = number of stages that add <br /> tags themselves (each adds one per line end it sees)"""
+    if not isinstance(out, str):
+        out = str(out)
+    if br:
+        if out.count('<br />') > int(br) * (s.count('\n') + s.lower().count('%0a')):
+            return False
+        out = strip_br(out)
+    return '<' not in out
+
+
+def ob_method_formats(m: int) -> bool:
+    """fmt=<name> for EVERY public attribute name of str (methods that need arguments simply fail): whatever the method returns - str,
+    list, tuple, bool, bytes - no raw '<' of the tainted value is emitted"""
+    i = 0
+    for k in range(len(STR_METHODS)):
+        if m == k:
+            i = k
+    with NoTracing():
+        name = STR_METHODS[i]
+        for src, cls in (('<dtml-var x fmt=%s>' % name, HTML), ('<dtml-var x fmt="%s" upper size=40>' % name, HTML), ('%%(x fmt=%s)s' % name, String)):
+            t = cls(src)
+            for v in TPOOL:
+                try:
+                    out = t(x=TaintedString(v))
+                except BENIGN:
+                    continue
+                if not leak_free(out, v, False):
+                    return False
+        return True
+
+
+OBLIGATIONS.append(Ob('method_formats_all', ob_method_formats, ['0 <= m < %d' % len(STR_METHODS)], timeout=tier(200, 600), path_timeout=60, data='-',
+                      selectors='fmt=<every public attribute name of str: %d names> in three tag forms, tainted values from the pool' % len(STR_METHODS),
+                      outside='tainted values outside the pool', stubs='renders run untraced once the method name is fixed on the path'))
+
+COMBO_FMT = [None, 'multi-line', 'url-quote', 'sql-quote', 'html-quote', 'url-unquote', 'comma-numeric', 'strip']
+COMBO_CFMT = ['s', '40s', '.60s', '-5s']
+COMBO_MODS = ['html_quote', 'url_quote', 'url_quote_plus', 'url_unquote', 'url_unquote_plus', 'newline_to_br', 'upper', 'spacify', 'thousands_commas', 'sql_quote']
+COMBOS = []
+for _f in COMBO_FMT:
+    for _c in COMBO_CFMT:
+        for _i in range(len(COMBO_MODS) + 1):
+            for _j in range(_i, len(COMBO_MODS) + 1):
+                _ms = ([COMBO_MODS[_i]] if _i < len(COMBO_MODS) else []) + ([COMBO_MODS[_j]] if _j < len(COMBO_MODS) and _j != _i else [])
+                if _i == len(COMBO_MODS) and _j != _i:
+                    continue
+                COMBOS.append((_f, _c, tuple(_ms)))
+COMBOS = sorted(set(COMBOS), key=repr)
+
+
+def ob_combos(k: int) -> bool:
+    """every combination of (special / method format) x (C-style conversion) x (up to two modifiers), EPFS and HTML syntax"""
+    lo, hi = 0, len(COMBOS)
+    while hi - lo > 1:
+        mid = (lo + hi) // 2
+        if k < mid:
+            hi = mid
+        else:
+            lo = mid
+    with NoTracing():
+        f, c, ms = COMBOS[lo]
+        args = 'x' + (' fmt=%s' % f if f else '') + ''.join(' ' + m for m in ms)
+        br = int(f == 'multi-line') + int('newline_to_br' in ms)
+        ts = [String('%%(%s)%s' % (args, c))]
+        if c == 's':
+            ts.append(HTML('<dtml-var %s>' % args))
+            ts.append(HTML('<dtml-var %s size=30 etc="">' % args))
+        for t in ts:
+            for v in TPOOL:
+                try:
+                    out = t(x=TaintedString(v))
+                except BENIGN:
+                    continue
+                if not leak_free(out, v, br):
+                    LASTC['info'] = 'template %r with x=TaintedString(%r) renders %r' % (t.raw, v, out)
+                    return False
+        return True
+
+
+LASTC = {}
+OBLIGATIONS.append(Ob('combos', ob_combos, ['0 <= k < %d' % len(COMBOS)], timeout=tier(280, 900), path_timeout=60, data='-',
+                      selectors='%d combinations: fmt in %r x C-style conversion in %r x up to two modifiers of %r; EPFS form, and for conversion s also <dtml-var> with and without size; '
+                      'tainted values from the pool' % (len(COMBOS), COMBO_FMT, COMBO_CFMT, COMBO_MODS),
+                      outside='three or more modifiers together with fmt= and a C-style conversion; values outside the pool', stubs='templates compiled and rendered untraced once the combination is fixed on the path'))
+
+ONCE_SRCS = ['<dtml-var x html_quote>', '<dtml-var x fmt=multi-line html_quote>', '<dtml-var x newline_to_br html_quote>', '<dtml-var x html_quote upper>',
+             '<dtml-var x html_quote size=50>', '<dtml-var x fmt=html-quote html_quote>', '<dtml-var x fmt=html-quote>', '<dtml-var x fmt=multi-line html_quote spacify>',
+             '&dtml.newline_to_br-x;', '&dtml-x;', '<dtml-var "x" html_quote lower>', '<dtml-var x fmt="%s" html_quote>', '<dtml-var x html_quote sql_quote>',
+             '<dtml-var x fmt=multi-line newline_to_br html_quote>', '<dtml-var x html_quote null="">', '<dtml-var x html_quote thousands_commas>']
+ONCE_T = [cooked(s_) for s_ in ONCE_SRCS]
+ONCE_EPFS = [cooked(s_, String) for s_ in ('%(x html_quote)s', '%(x fmt=multi-line html_quote)s', '%(x html_quote)40s', '%(x fmt=multi-line html_quote).70s')]
+
+
+def ob_once_not_twice(k: int, j: int) -> bool:
+    """with html_quote ALSO requested a tainted value is escaped once, not twice: no '&amp;lt;', '&amp;amp;', '&amp;quot;' ... appears"""
+    ts = ONCE_T + ONCE_EPFS
+    ti, vi = 0, 0
+    for i in range(len(ts)):
+        if k == i:
+            ti = i
+    for i in range(len(TPOOL)):
+        if j == i:
+            vi = i
+    with NoTracing():
+        v = TPOOL[vi]
+        try:
+            out = ts[ti](x=TaintedString(v))
+        except BENIGN:
+            return True
+        low = out.lower()
+        for twice in ('&amp;lt;', '&amp;amp;', '&amp;quot;', '&amp;gt;', '&amp;#x27;'):
+            if twice in low:
+                return False
+        return leak_free(out, v, 2)
+
+
+OBLIGATIONS.append(Ob('escaped_once_not_twice', ob_once_not_twice, ['0 <= k < %d' % (len(ONCE_T) + len(ONCE_EPFS)), '0 <= j < %d' % len(TPOOL)], timeout=tier(200, 600), path_timeout=60, data='-',
+                      selectors='%d templates that request html_quote together with a format / modifier / size / C-style conversion, tainted values from the pool' % (len(ONCE_T) + len(ONCE_EPFS)),
+                      outside='values outside the pool', stubs='render runs untraced once template and value are fixed on the path'))
